@@ -2,9 +2,9 @@
 import json, os
 from vlib import core
 
-THEOREMS = ['accept_iff', 'payloadOk_iff', 'initial_refines', 'silent_on_reject', 'reject_is_final', 'gated', 'served_after_negotiation',
+THEOREMS = ['accept_iff', 'src_checkInitialMessage', 'src_accept_iff', 'payloadOk_iff', 'initial_refines', 'silent_on_reject', 'reject_is_final', 'gated', 'served_after_negotiation',
             'early_callers_fail', 'setup_failure_returns', 'gate_sites']
-MODULES = ['LLRP.Model.ClientLTS', 'LLRP.Model.Initial', 'LLRP.Proofs.ClientLTS', 'LLRP.Proofs.ClientLTS2', 'LLRP.Proofs.ClientLive', 'LLRP.Oracle.LTSim', 'LLRP.Oracle.C08']
+MODULES = ['LLRP.Model.ClientLTS', 'LLRP.Model.Initial', 'LLRP.Model.GoSeq', 'LLRP.Proofs.SeqInitial', 'LLRP.Proofs.ClientLTS', 'LLRP.Proofs.ClientLTS2', 'LLRP.Proofs.ClientLive', 'LLRP.Oracle.LTSim', 'LLRP.Oracle.C08']
 RULE = ('initial: the real checkInitialMessage on a recorded connection for each of the 46 message types x ConnectionAttemptEvent status '
         '0..5, 255, 65535 (thorough 0..255) x {well-formed, empty, truncated stream, declared too long / too short, oversize claim, garbage}; '
         'for ReaderEventNotification also: no ConnectionAttemptEvent, additional events, every single-byte corruption and every prefix of the '
@@ -14,8 +14,9 @@ RULE = ('initial: the real checkInitialMessage on a recorded connection for each
         'EOF, cut frame, local close), SendNoWait / Shutdown / cancelled early callers; 160 repetitions (thorough 1600) of failing negotiation with 8 parked callers and 6 callers spinning on a cancelled context (nothing of theirs may reach the wire, none may be accepted); compared: every frame the peer receives in order, '
         'each caller\'s result class, Connect\'s result. distinct = distinct request lines; non-trivial = all')
 ASSUMPTIONS = [
-    'the pure model of checkInitialMessage (LLRP.Model.Initial) and the client LTS are hand-written; the payload decision uses the verified '
-    'codec model (decode Gen.schema m_ReaderEventNotification) and both are tied to reader.go by the differential runs named in the rule',
+    'the pure model of checkInitialMessage (LLRP.Model.Initial) is proved equal to the go2seq translation of reader.go\'s function (src_checkInitialMessage; '
+    'the meaning of the calls it makes is SeqGlue.initEnv); the client LTS is hand-written; the payload decision uses the verified '
+    'codec model (decode Gen.schema m_ReaderEventNotification); both are also tied to reader.go by the differential runs named in the rule',
     'early-caller timing: "before Connect / during the initial read / during negotiation" is established by a 3 ms pause after starting the '
     'caller goroutine; the model predicts the same observation whether or not the caller had reached its select, and the oracle answers nondet '
     'when a script\'s observation depends on the schedule',
